@@ -24,16 +24,19 @@ def outcome(fn):
     return 'ok ' + treedump.dump(nodes) + '@%d' % pos
 
 
-def parse_top(s, tol, db=None, wkw=None):
+def parse_top(s, tol, db=None, wkw=None, state=None):
     from pylatexenc.latexwalker import LatexWalker
     from pylatexenc.latexnodes.parsers import LatexGeneralNodesParser
     kw = {} if db is None else {'latex_context': db}
     kw.update(wkw or {})
     w = LatexWalker(s, tolerant_parsing=tol, **kw)
     tr = w.make_token_reader()
+    pkw = {}
+    if state:
+        pkw['parsing_state'] = w.make_parsing_state().sub_context(**state)
 
     def go():
-        nodes, _ = w.parse_content(LatexGeneralNodesParser(), token_reader=tr)
+        nodes, _ = w.parse_content(LatexGeneralNodesParser(), token_reader=tr, **pkw)
         return nodes, tr.cur_pos()
     return outcome(go)
 
